@@ -57,6 +57,7 @@ type Spec struct {
 	Solver    string            `json:"solver"`
 	NoMerge   bool              `json:"nomerge"`
 	Havoc     []string          `json:"havoc"` // functions replaced by an unconstrained result (over-approximation)
+	MaxPreempt *int             `json:"max_preempt"` // bound on pre-emptive context switches per path (nil = unbounded)
 	Summaries []string          `json:"summaries"` // "pkg.fn=HarnessFn": calls to fn run HarnessFn (same package as the harness) instead
 }
 
@@ -141,6 +142,10 @@ func Run(spec *Spec) (res *Result) {
 			}
 		}
 		havocFns[h] = true
+	}
+	maxPreempt = -1
+	if spec.MaxPreempt != nil {
+		maxPreempt = *spec.MaxPreempt
 	}
 	summaryNames = map[string]string{}
 	summaryFns = map[string]*ssa.Function{}
